@@ -79,6 +79,11 @@ func (d *dialer) Close() error {
 		d.redialer.Stop()
 	}
 	d.closed = true
+	// A connection attempt may be in progress (waiting for the peer's
+	// handshake, say); transports that can give it up offer Close.
+	if c, ok := d.d.(interface{ Close() error }); ok {
+		_ = c.Close()
+	}
 	return nil
 }
 
